@@ -73,6 +73,10 @@ pub struct Stats {
     pub decoder_pairs: HashSet<u32>,
     /// malformed-byte class sequences delivered (length <= 4), packed
     pub bad_class_seqs: HashSet<u32>,
+    /// editor states (cap <= 6: cap, byte-length pattern, cursor) reached after an editing key
+    pub small_editor_states: HashSet<u64>,
+    /// history states (cap <= 8: cap, entry lengths, navigation position) reached
+    pub small_history_states: HashSet<u64>,
     pub runs: u64,
     pub runs_faulty: u64,
     pub runs_fault_free: u64,
@@ -88,6 +92,8 @@ impl Default for Stats {
             states: HashSet::new(),
             decoder_pairs: HashSet::new(),
             bad_class_seqs: HashSet::new(),
+            small_editor_states: HashSet::new(),
+            small_history_states: HashSet::new(),
             runs: 0,
             runs_faulty: 0,
             runs_fault_free: 0,
@@ -126,6 +132,8 @@ impl Stats {
         }
         self.decoder_pairs.extend(other.decoder_pairs.iter().copied());
         self.bad_class_seqs.extend(other.bad_class_seqs.iter().copied());
+        self.small_editor_states.extend(other.small_editor_states.iter().copied());
+        self.small_history_states.extend(other.small_history_states.iter().copied());
         self.runs += other.runs;
         self.runs_faulty += other.runs_faulty;
         self.runs_fault_free += other.runs_fault_free;
